@@ -31,6 +31,10 @@ DSP1 = ['ba', 'ea', 'my', 'mdt', 'meq', 'mam', 'mnl']
 DSP2 = ['ba', 'ea', 'my', 'mdt', 'mcm', 'meq', 'mpl', 'mtx', 'msp', 'mlb', 'mam', 'mnl']
 DSP3 = ['a', 'ba', 'ea', 'bq', 'eq', 'bd', 'ed', 'bdd', 'edd', 'my', 'mw', 'mdt', 'meq', 'mtx', 'mnn', 'mlb', 'mfr', 'mal', 'msb', 'mti', 'mob', 'mcb', 'mam', 'mnl']
 DSPALL = sorted(set(DSP3 + DSP2 + ['sp', 'nl', 'mo', 'mc']))
+FAULTS = ['Fim', 'FimE', 'Fdm', 'FdmE', 'FeqE', 'FargE', 'FoptE', 'FvbE', 'FveE', 'Fsk', 'Facc', 'Flt']
+FLT2 = ['a', 'b', 'sp', 'nl', 'cm', 'lb', 'uk', 'ob', 'cb', 'fn', 'sec', 'im', 'add', 'it', 'bi', 'ei', 'vb', 'tie', 'skb', 'ske', 'q', 'mo', 'mc', 'my', 'bd', 'ed'] + FAULTS
+EXTR = ['a', 'b', 'sp', 'nl', 'fn', 'xo', 'cap', 'cb', 'uk', 'ob', 'sec', 'add', 'tc', 'cmf', 'cm', 'skb', 'ske', 'q', 'fnq', 'bl', 'el', 'im', 'ref', 'lb', 'par', 'bi', 'ei', 'it']
+UNKN = ['a', 'sp', 'uk', 'uk2', 'bu', 'eu', 'xo', 'cb', 'ob', 'fn', 'sec', 'add', 'tc', 'cmu', 'skb', 'ske', 'q', 'mo', 'mc', 'mal', 'my', 'bd', 'ed', 'dA', 'uA', 'dB', 'uB', 'uC', 'dC', 'lb', 'it', 'bi', 'ei', 'vb']
 COPY = ['a', 'b', '.', 'sp', 'nl', 'cm', 'ob', 'cb', 'uk', 'add', 'fbx', 'tc', 'fn', 'cap', 'vb', 'tie', 'nd', 'md', 'lq', 'rq',
         'thin', 'pct', 'amp', 'dol', 'hsh', 'usc', 'lbr', 'rbr', 'lb', 'sec', 'im']
 PROSE = ['up', 'cto', 'ctc', 'a', 'b', '!', 'sp', 'nl', 'cm', 'uk', 'uk2', 'ob', 'cb', 'add', 'tc', 'fn', 'cap', 'sec', 'sub', 'bi', 'ei', 'be', 'ee', 'it',
@@ -67,6 +71,18 @@ CONFIG = {
                 quick=[(DSP1, 6, 1), (DSP2, 5, 1), (DSP3, 4, 1)],
                 thorough=[(DSP1, 8, 1), (DSP2, 6, 1), (DSP3, 5, 1)],
                 sim=(DSPALL, 300, 3000), variants=[{}, {'lang': 'de'}, {'lang': 'ru', 'seqs': True}, {'seqs': True}]),
+    'C08': dict(key='c08', focus=set(FAULTS),
+                quick=[(['a', 'sp', 'nl', 'lb'] + FAULTS, 4, 1), (FLT2, 3, 2), (['a', 'nl'] + FAULTS, 5, 1)],
+                thorough=[(['a', 'sp', 'nl', 'lb'] + FAULTS, 5, 1), (FLT2, 4, 2), (['a', 'nl'] + FAULTS, 7, 1)],
+                sim=(FLT2, 300, 3000)),
+    'C18': dict(key='c18', focus={'fn', 'xo', 'cap', 'cmf', 'fnq'},
+                quick=[(EXTR, 4, 2), (['a', 'sp', 'fn', 'xo', 'cb', 'uk', 'ob', 'cmf', 'sec'], 5, 3)],
+                thorough=[(EXTR, 5, 3), (['a', 'sp', 'fn', 'xo', 'cb', 'uk', 'ob', 'cmf', 'sec'], 7, 3)],
+                sim=(EXTR, 300, 3000), variants=[{'extr': 'footnote,xfoo'}], mode='extr'),
+    'C19': dict(key='c19', focus={'uk', 'uk2', 'bu', 'xo', 'uA', 'uB', 'uC', 'mal', 'cmu'},
+                quick=[(UNKN, 3, 2), (['a', 'uk', 'uk2', 'bu', 'eu', 'fn', 'cb', 'mo', 'mal', 'my', 'mc', 'cmu', 'skb', 'ske', 'uB', 'dB'], 4, 2)],
+                thorough=[(UNKN, 4, 3), (['a', 'uk', 'uk2', 'bu', 'eu', 'fn', 'cb', 'mo', 'mal', 'my', 'mc', 'cmu', 'skb', 'ske', 'uB', 'dB'], 6, 2)],
+                sim=(UNKN, 300, 3000), variants=[{'unkn': True}, {'unkn': True, 'pack': '*'}]),
     'C05': dict(key='c05', focus={'sp', 'nl', 'cm', 'tab', 'par', 'bm', 'bl', 'skb', 'lb', 'uk'},
                 quick=[(LAYOUT, 5, 1), (LAYOUT2, 3, 2), (['a', 'sp', 'nl', 'cm', 'lb', 'uk', 'ob', 'cb', 'skp', 'par', 'tab'], 4, 2), (LINES10, 4, 1), (LINES, 3, 2)],
                 thorough=[(LAYOUT, 6, 1), (LAYOUT2, 4, 2), (['a', 'sp', 'nl', 'cm', 'lb', 'uk', 'ob', 'cb', 'skp', 'par', 'tab'], 5, 2), (LINES10, 5, 1), (LINES, 4, 2)],
@@ -80,6 +96,9 @@ def project(rec):
     d['ndef'] = rec.get('ndef', 0)
     d['lang'] = chars.enc((rec.get('opts') or {}).get('lang') or '')
     d['seqs'] = bool((rec.get('opts') or {}).get('seqs'))
+    d['unkn'] = bool((rec.get('opts') or {}).get('unkn'))
+    d['extr'] = bool((rec.get('opts') or {}).get('extr'))
+    d['diags'] = rec.get('diags', [])
     d['prefix'] = rec.get('prefix', [])
     return d
 
@@ -98,18 +117,21 @@ def drive_routes(case):
     return rec
 
 
+MODE = 'normal'
+
+
 def generate(c, confs, sim, tier):
     """-> list of behaviours {doc, src}, deduplicated by doc"""
     seen = {}
     for (syms, n, d) in confs:
-        cfg = tlc.cfg_text(constants={'Sym': set(syms), 'MaxSym': n, 'MaxDepth': d, 'Free': False}, invariants=GEN_INV)
+        cfg = tlc.cfg_text(constants={'Sym': set(syms), 'MaxSym': n, 'MaxDepth': d, 'Free': False, 'Mode': MODE}, invariants=GEN_INV)
         r = c.tlc('generator E(%d) over %d symbols' % (n, len(syms)), 'Gen', cfg, coverage=False)
         for b in r.json('@@'):
             seen.setdefault(tuple(b['doc']), b)
     nex = len(seen)
     syms, nq, nt = sim
     num = nq if tier == 'quick' else nt
-    cfg = tlc.cfg_text(constants={'Sym': set(syms), 'MaxSym': 40, 'MaxDepth': 4, 'Free': False}, invariants=GEN_INV)
+    cfg = tlc.cfg_text(constants={'Sym': set(syms), 'MaxSym': 40, 'MaxDepth': 4, 'Free': False, 'Mode': MODE}, invariants=GEN_INV)
     r = c.tlc('generator S(%d,60)' % num, 'Gen', cfg, simulate=num * 4, depth=60, seed=c.seed, workers=4)
     for b in r.json('@@'):
         seen.setdefault(tuple(b['doc']), b)
@@ -119,8 +141,10 @@ def generate(c, confs, sim, tier):
 
 
 def run(prop, tier, seed, replay=None):
+    global MODE
     conf = CONFIG[prop]
     key = conf['key']
+    MODE = conf.get('mode', 'normal')
     c = core.Check(prop, tier, seed)
     c.rule = ('documents = all well-formed symbol sequences of Doc.tla over the listed symbol sets up to the listed length '
               '(TLC, exhaustive) plus TLC-simulated longer ones; each is run through the real tex2txt and the observation '
